@@ -14,6 +14,12 @@ def spec(tier):
             obs.append(CH(name=f"outcomes_P{P}_q{q1}{q2}", harness="c09.ledger",
                           sym=dict(t1=I(0, 2), t2=I(0, 3) if th else I(1, 2), d0=I(1, 2), m0=I(9, 12), m1=I(9, 12), sus_t=I(-1, 3)),
                           fixed=dict(P=P, q0=0, q1=q1, q2=q2, d1=1, d2=2, m2=1, sus_pool=0), timeout=900))
+    # success iff all operators completed, for multi-segment operators whose trailing segment may round to zero ticks
+    obs.append(CH(name="outcome_states", harness="c09.outcome_states",
+                  sym=dict(r0=I(0, 25), d0=I(0, 1), r1=I(0, 25), d1=I(0, 1), dy=I(0, 2), alloc=I(1, 6), my=I(0, 7)), fixed={}, timeout=900))
+    osym = dict(r1=I(0, 25), d1=I(0, 1), alloc=I(1, 6), my=I(0, 7))
+    obs.append(twin("outcome_fail", "c09.outcome_states", osym, dict(r0=20, d0=1, dy=1), "fail"))
+    obs.append(twin("outcome_zero_tick_tail", "c09.outcome_states", osym, dict(r0=20, d0=1, dy=1), "zero_tick_tail"))
     tsym = dict(q1=I(-1, 3), t1=I(0, 3), d0=I(1, 2), m0=I(1, 12), sus_t=I(-1, 4))
     tfix = dict(P=2, q0=0, q2=1, t2=1, d1=1, d2=2, m1=1, m2=1, sus_pool=0)
     for w in ("bad_pool_rejected", "fail", "ok", "suspension_ended"):
